@@ -85,6 +85,7 @@ func (d *lsnDrv) runSlowHistory(fl *txFailLog, steps []sstep) {
 	fl.take()
 	reps := make([]lsnRep, len(steps))
 	crecv := make([]uint64, len(steps))
+	var echoAt []int64 // harness clock (ns) just before each SCMP echo request was sent
 	for i := 0; i < len(steps) && !d.lost; {
 		j := i
 		for j < len(steps) && steps[j].g == steps[i].g {
@@ -92,6 +93,15 @@ func (d *lsnDrv) runSlowHistory(fl *txFailLog, steps []sstep) {
 		}
 		if steps[i].pause > 0 {
 			time.Sleep(time.Duration(steps[i].pause) * time.Millisecond)
+		}
+		if steps[i].mode == 5 { // an SCMP echo (a burst of its own), not an NTP exchange
+			if steps[i].lsn == 1 {
+				t := time.Now()
+				echoAt = append(echoAt, t.Unix()*1e9+int64(t.Nanosecond()))
+				d.scmpEcho(steps[i].lstepS)
+			}
+			i = j
+			continue
 		}
 		c, _ := d.conn(steps[i].lstepS)
 		d.drain(c)
@@ -159,10 +169,17 @@ func (d *lsnDrv) runSlowHistory(fl *txFailLog, steps []sstep) {
 	fails := fl.take()
 	unread := make([]bool, len(steps))
 	for _, l := range fails {
-		at := -1
+		// the record belongs to the last thing the listener loop did before it: an NTP exchange (its
+		// software transmit time is in the reply) or an SCMP echo (sent after the harness clock reading)
+		at, atTime := -1, int64(-1)
 		for i := range steps {
-			if reps[i].got && nsOf64(t64of(reps[i].ref)) <= l {
-				at = i
+			if t := nsOf64(t64of(reps[i].ref)); reps[i].got && t <= l && t > atTime {
+				at, atTime = i, t
+			}
+		}
+		for _, t := range echoAt {
+			if t <= l && t > atTime {
+				at, atTime = -1, t
 			}
 		}
 		if at >= 0 {
@@ -188,6 +205,9 @@ func (d *lsnDrv) runSlowHistory(fl *txFailLog, steps []sstep) {
 	for _, i := range order {
 		s := steps[i]
 		r := reps[i]
+		if s.mode == 5 {
+			continue
+		}
 		inter := r.got && r.qrx != r.qtx && r.org == r.qrx
 		if inter {
 			nInter++
@@ -235,6 +255,12 @@ func genSlowHistory(r *lib.Rng, nbursts int) []sstep {
 	var prev []int // steps of the previous burst
 	var older []int
 	for g := 0; g < nbursts; g++ {
+		if base.lsn == 1 && g > 0 && r.Intn(5) == 0 {
+			e := sstep{lstepS: base, g: g, pause: lib.Pick(r, 0, 20, 250)}
+			e.mode, e.k, e.x, e.y = 5, -1, r.U64(), r.U64()
+			steps = append(steps, e)
+			continue
+		}
 		n := 1 + r.Intn(6)
 		pause := lib.Pick(r, 0, 0, 5, 20, 60, 120, 250)
 		var cur []int
